@@ -24,6 +24,18 @@
 // that step, and from then on it is an ordinary registration (served by later deliveries / the final
 // flush). Every delivery runs under a watchdog (world.AwaitOrDiagnose): handling that never returns is
 // reported with the lock evidence, a merely slow machine is not.
+//
+// Counters of real requests: besides callbacks for drawn counters, client features send read requests
+// (FeatureLocal.RequestRemoteData) to one of the peers and register callbacks for the counter the
+// request returned (the counter of the read datagram on that peer's writer). The connections count
+// their messages independently from the same start, so the same counter belongs to requests towards
+// both peers; callbacks are keyed by local feature and counter, whoever of the peers sends the accepted
+// reply or result that references it (the answering peer is drawn independently of the asked one).
+//
+// Peers come and go: a peer that no pending callback has sent a request to is disconnected
+// (RemoveRemoteDeviceConnection) and possibly connected and announced again; every registration
+// stays and has to be served exactly once by the messages of the peers that are connected. (What
+// becomes of a callback that waits for the answer of the removed peer itself is not generated.)
 package c14
 
 import (
@@ -266,6 +278,7 @@ type reg struct {
 	consumed bool
 	want     []int // serials of the deliveries that have to have invoked it
 
+	reqPeer int  // >= 0: the counter was returned by a read request of this feature to that peer
 	chained bool // a follow-up: registered from inside the callback of registration parent
 	parent  int
 	unreg   bool // (follow-ups) the registering callback has not run: not registered
@@ -376,8 +389,10 @@ type machine struct {
 	chainsAt  int              // follow-up registrations of the log that are booked already
 	planned   map[keySite]bool // response follow-ups that are planned and not yet registered
 
-	base   int         // goroutines alive when nothing is going on
-	abort  atomic.Bool // a wedge was diagnosed: helper goroutines that still poll give up
+	ents   []world.EntSpec // what every peer announces
+	gone   []bool          // the peer's connection is removed at the moment
+	base   int             // goroutines alive when nothing is going on
+	abort  atomic.Bool     // a wedge was diagnosed: helper goroutines that still poll give up
 	inConc bool
 
 	ops        []string // abstract history (distinctness key, samples)
@@ -419,9 +434,10 @@ func newMachine(defs []featDef) *machine {
 		remote = append(remote, world.FeatSpec{ID: uint(i + 1), Type: d.ft, Role: opposite(d.role), Funcs: funcSpecs(d.ft, opposite(d.role))})
 		m.ops = append(m.ops, fmt.Sprintf("feature %d: %s %s", i, d.ft, d.role))
 	}
+	m.ents = []world.EntSpec{{Addr: []uint{1}, Type: model.EntityTypeTypeEVSE, Feats: remote}}
 	for i := 0; i < 2; i++ {
-		ents := []world.EntSpec{{Addr: []uint{1}, Type: model.EntityTypeTypeEVSE, Feats: remote}}
-		m.peers = append(m.peers, m.w.AddPeer(fmt.Sprintf("ski%d", i+1), fmt.Sprintf("d:_r:peer%d", i+1), ents))
+		m.peers = append(m.peers, m.w.AddPeer(fmt.Sprintf("ski%d", i+1), fmt.Sprintf("d:_r:peer%d", i+1), m.ents))
+		m.gone = append(m.gone, false)
 	}
 	m.w.Sync()
 	m.base = runtime.NumGoroutine()
@@ -429,7 +445,7 @@ func newMachine(defs []featDef) *machine {
 }
 
 func (m *machine) newReg(site, feat int, counter uint64, result, conc bool) *reg {
-	r := &reg{id: len(m.regs), site: site, feat: feat, counter: counter, result: result, conc: conc}
+	r := &reg{id: len(m.regs), site: site, feat: feat, counter: counter, result: result, conc: conc, reqPeer: -1}
 	m.regs = append(m.regs, r)
 	return r
 }
@@ -532,7 +548,7 @@ func (m *machine) unplan(r *reg) {
 	}
 }
 
-func (m *machine) register(t world.TB, feat int, counter uint64, site int, fu *followUp) {
+func (m *machine) register(t world.TB, feat int, counter uint64, site int, fu *followUp) *reg {
 	k := key{feat, counter}
 	dup := m.pendingSite(k, site)
 	r := m.newReg(site, feat, counter, false, false)
@@ -542,6 +558,89 @@ func (m *machine) register(t world.TB, feat int, counter uint64, site int, fu *f
 	if r.refused {
 		m.unplan(r)
 	}
+	return r
+}
+
+// request lets local (client) feature feat read function fn from the matching server feature of a
+// peer; the counter the request returned is what the application registers its callback for.
+func (m *machine) request(t world.TB, feat, peer int, fn model.FunctionType) uint64 {
+	p := m.peers[peer]
+	dest := p.Dev.FeatureByAddress(p.FA([]uint{1}, uint(feat+1)))
+	if dest == nil {
+		t.Fatalf("harness: peer %d has not announced the counterpart of feature %d", peer, feat)
+	}
+	p.Cap.Drain()
+	c, e := m.feats[feat].RequestRemoteData(fn, nil, nil, dest)
+	if e != nil || c == nil {
+		t.Fatalf("harness: RequestRemoteData(%s) of feature %d to peer %d failed: %v", fn, feat, peer, e)
+	}
+	wire := "an unanswered identical request is pending: no new datagram"
+	for _, s := range p.Cap.Drain() {
+		if s.Classifier() == model.CmdClassifierTypeRead && s.D.Header.MsgCounter != nil {
+			wire = fmt.Sprintf("read datagram with msgCounter %d on the writer of peer %d", *s.D.Header.MsgCounter, peer)
+			if *s.D.Header.MsgCounter != *c {
+				world.Label("request/counter-on-the-wire-differs") // the numbering of requests is C13's subject
+			}
+		}
+	}
+	m.ops = append(m.ops, fmt.Sprintf("feature %d requests %s from peer %d: counter %d (%s)", feat, fn, peer, *c, wire))
+	world.Label("register/for-counter-of-real-request")
+	return uint64(*c)
+}
+
+// awaited: a pending callback waits for the answer to a request that was sent to this peer.
+func (m *machine) awaited(peer int) bool {
+	for _, rs := range m.pending {
+		for _, r := range rs {
+			if r.reqPeer == peer {
+				return true
+			}
+		}
+	}
+	return false
+}
+
+func (m *machine) connected() int {
+	n := 0
+	for _, g := range m.gone {
+		if !g {
+			n++
+		}
+	}
+	return n
+}
+
+// livePeer maps a drawn peer index to a peer whose connection exists (one always does).
+func (m *machine) livePeer(i int) int {
+	for m.gone[i] {
+		i = (i + 1) % len(m.peers)
+	}
+	return i
+}
+
+func (m *machine) disconnect(t world.TB, peer int) {
+	open := 0
+	for _, rs := range m.pending {
+		open += len(rs)
+	}
+	p := m.peers[peer]
+	m.w.Local.RemoveRemoteDeviceConnection(p.Ski)
+	p.Gone = true
+	m.gone[peer] = true
+	m.sync(t, nil)
+	m.ops = append(m.ops, fmt.Sprintf("peer %d disconnects (%d response callbacks pending, none for a request to it)", peer, open))
+	world.Label("peer/disconnect", fmt.Sprintf("peer/disconnect-with-pending-callbacks-%v", open > 0))
+	if open > 0 {
+		m.nontrivial = true
+	}
+}
+
+func (m *machine) reconnect(t world.TB, peer int) {
+	m.peers[peer] = m.w.Reconnect(m.peers[peer], m.ents)
+	m.gone[peer] = false
+	m.sync(t, nil)
+	m.ops = append(m.ops, fmt.Sprintf("peer %d connects again and announces its features", peer))
+	world.Label("peer/reconnect")
 }
 
 func (m *machine) registerResult(feat, site int, fu *followUp) {
@@ -703,6 +802,12 @@ func (m *machine) apply(d *delivery) {
 	for _, r := range m.pending[k] {
 		r.want = append(r.want, d.serial)
 		r.consumed = true
+		if r.reqPeer >= 0 {
+			world.Label(fmt.Sprintf("deliver/answer-to-real-request-from-the-asked-peer-%v", r.reqPeer == d.peer))
+			if r.reqPeer != d.peer {
+				m.nontrivial = true
+			}
+		}
 	}
 	if matching {
 		delete(m.pending, k)
@@ -746,6 +851,7 @@ func (m *machine) run(t world.TB, dels []*delivery, bodies ...func()) {
 			defer func() {
 				if r := recover(); r != nil {
 					panics[i] = fmt.Sprintf("%v\n%s", r, debug.Stack())
+					m.abort.Store(true) // whoever polls for the progress of this goroutine gives up
 				}
 			}()
 			b()
@@ -1223,7 +1329,7 @@ func (m *machine) drawCounter(t *rapid.T, label string, max int) uint64 {
 
 func (m *machine) drawSpec(t *rapid.T, label string) spec {
 	s := spec{
-		peer: rapid.IntRange(0, len(m.peers)-1).Draw(t, label+".peer"),
+		peer: m.livePeer(rapid.IntRange(0, len(m.peers)-1).Draw(t, label+".peer")),
 		src:  rapid.IntRange(0, len(m.feats)-1).Draw(t, label+".src"),
 		dst:  rapid.IntRange(0, len(m.feats)-1).Draw(t, label+".dst"),
 		kind: rapid.SampledFrom([]string{kReply, kReply, kReply, kRejected, kResult0, kResultE}).Draw(t, label+".kind"),
@@ -1334,6 +1440,44 @@ func (m *machine) actionRegister(t *rapid.T) {
 		}
 	}
 	m.register(t, feat, counter, site, m.drawFollowUp(t, feat, counter))
+}
+
+// actionRequest: a client feature asks one of the connected peers and waits for the answer.
+func (m *machine) actionRequest(t *rapid.T) {
+	var clients []int
+	for i, d := range m.defs {
+		if d.role == model.RoleTypeClient {
+			clients = append(clients, i)
+		}
+	}
+	feat := clients[rapid.IntRange(0, len(clients)-1).Draw(t, "feature")]
+	peer := m.livePeer(rapid.IntRange(0, len(m.peers)-1).Draw(t, "peer"))
+	fn := rapid.SampledFrom(functionsOf[m.defs[feat].ft]).Draw(t, "fn")
+	site := rapid.IntRange(0, len(sites)-1).Draw(t, "site")
+	counter := m.request(t, feat, peer, fn)
+	m.register(t, feat, counter, site, m.drawFollowUp(t, feat, counter)).reqPeer = peer
+}
+
+// actionDisconnect removes the connection of a peer nobody waits for; the other one stays.
+func (m *machine) actionDisconnect(t *rapid.T) {
+	if m.connected() < 2 {
+		t.Skip("one peer has to stay")
+	}
+	peer := rapid.IntRange(0, len(m.peers)-1).Draw(t, "peer")
+	if m.awaited(peer) {
+		t.Skip("a pending callback waits for the answer of this peer")
+	}
+	m.disconnect(t, peer)
+}
+
+func (m *machine) actionReconnect(t *rapid.T) {
+	for i, g := range m.gone {
+		if g {
+			m.reconnect(t, i)
+			return
+		}
+	}
+	t.Skip("every peer is connected")
 }
 
 func (m *machine) actionRegisterResult(t *rapid.T) {
@@ -1474,6 +1618,9 @@ func TestCallbacks(t *testing.T) {
 			"register":         m.actionRegister,
 			"register2":        m.actionRegister,
 			"registerResult":   m.actionRegisterResult,
+			"request":          m.actionRequest,
+			"disconnect":       m.actionDisconnect,
+			"reconnect":        m.actionReconnect,
 			"deliver":          m.actionDeliver,
 			"deliver2":         m.actionDeliver,
 			"deliverRepeated":  m.actionRepeat,
@@ -1544,6 +1691,40 @@ func TestScenario(t *testing.T) {
 		m.check(t)
 		if n := len(m.log.snapshot()); n != 12 {
 			t.Fatalf("harness: expected 12 invocations in the fixed scenario, saw %d", n)
+		}
+		// the same request to both peers (the connections number their messages alike); each is answered by the other peer
+		fn := model.FunctionTypeMeasurementListData
+		c0 := m.request(t, 0, 0, fn)
+		m.register(t, 0, c0, 0, nil).reqPeer = 0
+		c1 := m.request(t, 0, 1, fn)
+		m.register(t, 0, c1, 1, nil).reqPeer = 1
+		if c0 != c1 {
+			t.Logf("note: the requests to the two peers got different counters (%d, %d)", c0, c1)
+		}
+		answer := reply
+		answer.peer, answer.ref = 1, c0
+		m.deliver(t, answer)
+		m.check(t)
+		if c0 != c1 {
+			answer.peer, answer.ref = 0, c1
+			m.deliver(t, answer)
+			m.check(t)
+		}
+		if n := len(m.log.snapshot()); n != 14 {
+			t.Fatalf("harness: expected 14 invocations after the answers to the real requests, saw %d", n)
+		}
+		// a peer nobody waits for leaves and comes back: what is registered stays registered
+		m.register(t, 0, 40, 2, nil)
+		m.register(t, 1, 41, 2, nil)
+		m.disconnect(t, 1)
+		answer.peer, answer.ref = 0, 40
+		m.deliver(t, answer)
+		m.check(t)
+		m.reconnect(t, 1)
+		m.deliver(t, spec{peer: 1, src: 1, dst: 1, kind: kResultE, errNo: 2, ref: 41}) // + both result callbacks of feature 1
+		m.check(t)
+		if n := len(m.log.snapshot()); n != 18 {
+			t.Fatalf("harness: expected 18 invocations in the fixed scenario, saw %d", n)
 		}
 	})
 }
